@@ -315,6 +315,9 @@ pub fn effective_key(ident: &str, rename: &Option<String>, rename_all: Option<Re
     if let Some(r) = rename {
         return r.clone();
     }
+    // `r#type` is the identifier `type`: the `r#` prefix is not part of the identifier (Rust
+    // Reference, "Raw identifiers")
+    let ident = ident.strip_prefix("r#").unwrap_or(ident);
     match rename_all {
         Some(RenameAll::Camel) => camel(ident),
         Some(RenameAll::Lower) => ident.to_lowercase(),
